@@ -60,17 +60,57 @@ func r16a(c *an.Ctx) {
 			continue
 		}
 		c.Subject()
-		// a return of "" guarded by comma-ok == false, and a return of the looked-up value guarded by ok
-		missOK := false
-		for _, r := range an.Returns(fn) {
-			if s, isC := an.ConstString(r.Results[0]); isC && s == "" {
-				for _, a := range an.Atoms(r.Block()) {
-					if ex, isEx := a.X.(*ssa.Extract); isEx && a.Y == nil && !a.Val && ex.Index == 1 {
-						if _, isLk := ex.Tuple.(*ssa.Lookup); isLk {
-							missOK = true
+		// every returned value is "" or the value a lookup in a string map yields (which is "" on a miss, in
+		// the plain and in the comma-ok form alike); any other constant or computed value could name a state
+		missOK := len(an.Returns(fn)) > 0
+		var isMiss func(v ssa.Value, depth int) bool
+		isMiss = func(v ssa.Value, depth int) bool {
+			if depth > 6 {
+				return false
+			}
+			if s, isC := an.ConstString(v); isC {
+				return s == ""
+			}
+			switch x := v.(type) {
+			case *ssa.Lookup:
+				_, isMap := x.X.Type().Underlying().(*types.Map)
+				return isMap && !x.CommaOk
+			case *ssa.Extract:
+				_, isLk := x.Tuple.(*ssa.Lookup)
+				return isLk && x.Index == 0
+			case *ssa.UnOp:
+				// a named result: every value stored into its cell
+				al, isAl := x.X.(*ssa.Alloc)
+				if !isAl || x.Op != token.MUL {
+					return false
+				}
+				n := 0
+				for _, ref := range *al.Referrers() {
+					if st, isSt := ref.(*ssa.Store); isSt && st.Addr == al {
+						n++
+						if !isMiss(st.Val, depth+1) {
+							return false
+						}
+					} else if _, isLd := ref.(*ssa.UnOp); !isLd {
+						if _, isDbg := ref.(*ssa.DebugRef); !isDbg {
+							return false
 						}
 					}
 				}
+				return true // no store: the zero value ""
+			case *ssa.Phi:
+				for _, e := range x.Edges {
+					if !isMiss(e, depth+1) {
+						return false
+					}
+				}
+				return len(x.Edges) > 0
+			}
+			return false
+		}
+		for _, r := range an.Returns(fn) {
+			if len(r.Results) != 1 || !isMiss(r.Results[0], 0) {
+				missOK = false
 			}
 		}
 		c.Ob(trPkg+".(*"+strings.Replace(name, ".", ").", 1)+"|miss-returns-empty", fn.Pos(), missOK, "an unknown state name must map to \"\", never to another state")
